@@ -97,7 +97,29 @@ func (P *Program) registerTime() {
 	})
 }
 
+// sha256UF applies the uninterpreted function sha256_<n> to n bytes.
+func (in *Interp) sha256UF(b []value) array {
+	c := in.C
+	n := len(b)
+	if n == 0 {
+		c.DeclareFun("sha256_0", nil, smt.BV(256))
+		return in.unpackBytes(c.App("sha256_0"))
+	}
+	p, ok := in.packBytes(b)
+	if !ok {
+		panic(unsupported{"sha256 of non-byte data"})
+	}
+	name := fmt.Sprintf("sha256_%d", n)
+	c.DeclareFun(name, []smt.Sort{smt.BV(8 * n)}, smt.BV(256))
+	return array(in.unpackBytes(c.App(name, p)))
+}
+
 func (P *Program) registerRepoModels() {
+	P.reg("crypto/sha256.Sum256", func(fr *frame, args []value) value {
+		fr.in.path.noteAssumption("SHA-256 is an uninterpreted function (what is hashed is checked, not the hash)")
+		return fr.in.sha256UF(args[0].(sliceVal))
+	})
+	P.reg(VH+".Sha256", func(fr *frame, args []value) value { return fr.in.sha256UF(args[0].(sliceVal)) })
 	P.reg("encoding/hex.EncodeToString", func(fr *frame, args []value) value {
 		in := fr.in
 		s := args[0].(sliceVal)
